@@ -7,8 +7,8 @@ Section Analyzer.
   Variable alnum : cp -> bool.                     (* char::is_alphanumeric *)
   Variable lower : cp -> list cp.                  (* char::to_lowercase *)
   Variable fold : cp -> option (list cp).          (* fold_non_ascii_char *)
-  Variable stem : list cp -> list cp.              (* rust_stemmers *)
-  Variable dict_find : list cp -> list (N * N).    (* AhoCorasick::find_iter *)
+  Variable stem : N -> list cp -> list cp.         (* rust_stemmers, per filter instance *)
+  Variable dict_find : N -> list cp -> list (N * N).   (* AhoCorasick::find_iter, per filter instance *)
   Variable re_find : list cp -> option (N * N).    (* Regex::find *)
   Hypothesis re_find_ok : forall s a b, re_find s = Some (a, b) -> exists m, points_at s a b m.
 
@@ -29,7 +29,56 @@ Section Analyzer.
     | TFacet => Some (facet_tokenizer text)
     end.
 
+  Definition is_facet (T : tokenizer) : bool := match T with TFacet => true | _ => false end.
+
+  (* FacetTokenStream under a filter chain.  The facet tokenizer never clears `token.text`: each advance
+     pushes the next path segment onto whatever the text currently is -- and the filters rewrite that very
+     String in place (token_mut).  `chain_text` is the text the tokenizer's own token is left with after
+     one pass through the chain: rewritten by the map filters it reached; a dropped token stops at the
+     dropping filter; after a compound split the later filters work on the split parts (copies). *)
+  Fixpoint chain_text (fs : list tfilter) (t : list cp) : list cp :=
+    match fs with
+    | [] => t
+    | fl :: r =>
+        match fl with
+        | FLower => chain_text r (lower_text lower t)
+        | FAsciiFold => chain_text r (fold_text fold t)
+        | FStem l => chain_text r (stem l t)
+        | FRemoveLong limit => if blen t <? limit then chain_text r t else t
+        | FAlnumOnly => if forallb is_ascii_alnum t then chain_text r t else t
+        | FStop words => if existsb (cps_eqb t) words then t else chain_text r t
+        | FSplit d => match split_token dict_find d (mkTok 0 0 0 t) with
+                      | Some [_] => chain_text r t
+                      | _ => t
+                      end
+        end
+    end.
+
+  (* the path segments pushed by successive advances: text[cursor..next_sep] *)
+  Fixpoint facet_incs (l : list cp) (cur : list cp) (first : bool) : list (list cp) :=
+    match l with
+    | [] => [rev cur]
+    | c :: r => if (c =? TEXT_FACET_SEP_BYTE) && negb first
+                then rev cur :: facet_incs r [c] false
+                else facet_incs r (c :: cur) false
+    end.
+
+  Fixpoint facet_loop (fs : list tfilter) (incs : list (list cp)) (acc : list cp) : option (list token) :=
+    match incs with
+    | [] => Some []
+    | p :: r =>
+        let raw := acc ++ p in
+        match apply_chain lower fold stem dict_find fs [mkTok 0 0 0 raw], facet_loop fs r (chain_text fs raw) with
+        | Some a, Some b => Some (a ++ b)
+        | _, _ => None
+        end
+    end.
+
+  Definition facet_analyze (fs : list tfilter) (text : list cp) : option (list token) :=
+    facet_loop fs ([] :: match text with [] => [] | _ => facet_incs text [] true end) [].
+
   Definition analyze (T : tokenizer) (fs : list tfilter) (text : list cp) : option (list token) :=
+    if is_facet T then facet_analyze fs text else
     match tokenize T text with
     | Some ts => apply_chain lower fold stem dict_find fs ts
     | None => None
@@ -38,8 +87,6 @@ Section Analyzer.
   (* tokenizers whose tokens never overlap (offset_to monotone) *)
   Definition non_overlapping (T : tokenizer) : bool :=
     match T with TSimple | TWhitespace | TRaw | TRegex => true | _ => false end.
-  Definition is_facet (T : tokenizer) : bool := match T with TFacet => true | _ => false end.
-
   Lemma tokenize_ok T text ts : blen text <= USIZE_MAX -> tokenize T text = Some ts ->
     Forall (span_ok text) ts /\ pos_sorted ts /\ from_sorted ts /\
     (is_facet T = false -> Forall (tok_ok text) ts) /\
@@ -64,19 +111,41 @@ Section Analyzer.
       split; [exact H1|]. split; [exact H2|]. split; [exact H3|]. split; discriminate.
   Qed.
 
+  Definition zero_span (tk : token) : Prop := t_from tk = 0 /\ t_to tk = 0 /\ t_pos tk = 0.
+
+  Lemma facet_loop_zero fs : forall incs acc out, facet_loop fs incs acc = Some out -> Forall zero_span out.
+  Proof.
+    induction incs as [|p r IH]; intros acc out H; cbn [facet_loop] in H.
+    - injection H as <-. constructor.
+    - destruct (apply_chain lower fold stem dict_find fs [mkTok 0 0 0 (acc ++ p)]) as [a|] eqn:Ea; [|discriminate].
+      destruct (facet_loop fs r _) as [b|] eqn:Eb; [|discriminate]. injection H as <-.
+      apply Forall_app. split; [|eapply IH; exact Eb].
+      assert (Hsp : Forall (span_ok []) [mkTok 0 0 0 (acc ++ p)]).
+      { constructor; [|constructor]. exists []. exists [], []. repeat split; reflexivity. }
+      destruct (chain_preserves lower fold stem dict_find [] fs _ a Ea Hsp) as (_ & _ & _ & Hin).
+      apply Forall_forall. intros tk' Htk. destruct (Hin tk' Htk) as (tk & [<-|[]] & (E1 & E2 & E3)).
+      cbn [t_from t_to t_pos] in *. repeat split; assumption.
+  Qed.
+
   (* C19, tokens: every analyzer, every text *)
   Theorem analyze_ok T fs text out : blen text <= USIZE_MAX -> analyze T fs text = Some out ->
     Forall (span_ok text) out /\ pos_sorted out /\ from_sorted out /\
     (is_facet T = false -> forallb drop_only fs = true -> Forall (tok_ok text) out).
   Proof.
-    intros Hlen H. unfold analyze in H. destruct (tokenize T text) as [ts|] eqn:Et; [|discriminate].
+    intros Hlen H. unfold analyze in H. destruct (is_facet T) eqn:EF.
+    { pose proof (facet_loop_zero _ _ _ _ H) as Hz. split; [|split; [|split]].
+      - eapply Forall_impl; [|exact Hz]. cbn beta. intros tk (Z1 & Z2 & _). exists []. exists [], text. rewrite Z1, Z2. repeat split; reflexivity.
+      - apply (sorted_by_const _ _ 0). eapply Forall_impl; [|exact Hz]. unfold zero_span. cbn beta. tauto.
+      - apply (sorted_by_const _ _ 0). eapply Forall_impl; [|exact Hz]. unfold zero_span. cbn beta. tauto.
+      - discriminate. }
+    destruct (tokenize T text) as [ts|] eqn:Et; [|discriminate].
     destruct (tokenize_ok T text ts Hlen Et) as (H1 & H2 & H3 & H4 & _).
     destruct (chain_preserves lower fold stem dict_find text fs ts out H H1) as (C1 & C2 & C3 & _).
     repeat split; auto. intros Hf Hd. eapply drop_chain_keeps_text; eauto.
   Qed.
 
   (* the tokenizers never panic; a filter chain without the compound splitter never panics *)
-  Definition no_split (fl : tfilter) : bool := match fl with FSplit => false | _ => true end.
+  Definition no_split (fl : tfilter) : bool := match fl with FSplit _ => false | _ => true end.
 
   Lemma apply_chain_total fs : forallb no_split fs = true -> forall ts, apply_chain lower fold stem dict_find fs ts <> None.
   Proof.
@@ -90,7 +159,12 @@ Section Analyzer.
 
   Theorem analyze_total T fs text : forallb no_split fs = true -> analyze T fs text <> None.
   Proof.
-    intros Hn. unfold analyze. destruct (tokenize T text) as [ts|] eqn:Et; [apply apply_chain_total; exact Hn|].
+    intros Hn. unfold analyze. destruct (is_facet T).
+    { unfold facet_analyze. generalize ([] :: match text with [] => [] | _ => facet_incs text [] true end). generalize (@nil cp).
+      intros acc incs. revert acc. induction incs as [|p r IH]; intros acc; cbn [facet_loop]; [discriminate|].
+      destruct (apply_chain lower fold stem dict_find fs [mkTok 0 0 0 (acc ++ p)]) eqn:Ea; [|exfalso; eapply apply_chain_total; eauto].
+      specialize (IH (chain_text fs (acc ++ p))). destruct (facet_loop fs r _); [discriminate|contradiction]. }
+    destruct (tokenize T text) as [ts|] eqn:Et; [apply apply_chain_total; exact Hn|].
     destruct T; cbn [tokenize] in Et; try discriminate.
     destruct (regex_tokenizer_ok re_find re_find_ok text) as (ts' & E & _). congruence.
   Qed.
@@ -137,7 +211,8 @@ Section Analyzer.
   Theorem analyze_disjoint T fs text out : non_overlapping T = true -> forallb no_split fs = true ->
     blen text <= USIZE_MAX -> analyze T fs text = Some out -> disjoint_from 0 out.
   Proof.
-    intros HT Hn Hlen H. unfold analyze in H. destruct (tokenize T text) as [ts|] eqn:Et; [|discriminate].
+    intros HT Hn Hlen H. unfold analyze in H. replace (is_facet T) with false in H by (destruct T; try reflexivity; discriminate).
+    destruct (tokenize T text) as [ts|] eqn:Et; [|discriminate].
     destruct (tokenize_ok T text ts Hlen Et) as (_ & _ & _ & _ & Hd). eapply chain_no_dup_disjoint; eauto.
   Qed.
 
